@@ -140,6 +140,8 @@ package rux
 //@   ensures committed: c.writer.length >= 0
 //@   ensures body_appended: body(c.writer.Writer) == old(body(c.writer.Writer)) ++ bytes(bt)
 //@   ensures length_counts: c.writer.length == max(old(c.writer.length), 0) + len(bt)
+//@   ensures status_sent: old(c.writer.length) == -1 ==> hdrStatus(c.writer.Writer) == (old(c.writer.status) == 0 ? 200 : old(c.writer.status))
+//@   ensures status_kept: old(c.writer.length) >= 0 ==> hdrStatus(c.writer.Writer) == old(hdrStatus(c.writer.Writer))
 
 // ---------------------------------------------------------------------------
 // Handler chain: cursor protocol (C04, C05)
@@ -1086,3 +1088,95 @@ package rux
 //@ loop formatMethods #0
 //@   vars rangeindex, formatted
 //@   invariant -1 <= rangeindex && rangeindex + 1 <= len(methods) && len(formatted) <= rangeindex + 1 && (arr(formatted) == nil || fresh(arr(formatted)))
+
+// ---------------------------------------------------------------------------
+// Response helpers of Context (C19, on top of the writer contracts of C08)
+//
+//@ spec hdrs(c *Context) http.Header = cast(uf("headersOf", ref, refof(c.writer.Writer)), http.Header)
+//@ spec ctIs(c *Context, v string) bool = headerVal(hdrs(c), "Content-Type") == v && len(hdrs(c)["Content-Type"]) == 1 && hdrs(c)["Content-Type"][0] == v
+// renderFailed(sink): the last renderer invoked on that writer returned an error.
+//@ ghost renderFailed(ref) bool
+//
+//@ extern (github.com/gookit/rux/pkg/render.Renderer).Render(self, w, obj) (err)
+//@   requires w != nil && (hastype(w, *responseWriter) ==> rwOf(w) != nil && wInv(rwOf(w)))
+//@   modifies allentries(http.Header), headerVal(_, _), body(_), early(_), renderFailed(_), renderedKind(_), encW(_)
+//@   modifies rwOf(w).status, rwOf(w).length, hdrCalls(rwOf(w).Writer), hdrStatus(rwOf(w).Writer)
+//@   ensures hastype(w, *responseWriter) ==> wInv(rwOf(w)) && rwOf(w).length >= old(rwOf(w).length)
+//@   ensures hastype(w, *responseWriter) && old(rwOf(w).length) >= 0 ==> hdrStatus(rwOf(w).Writer) == old(hdrStatus(rwOf(w).Writer))
+//@   ensures hastype(w, *responseWriter) && old(rwOf(w).length) == -1 && rwOf(w).length >= 0 ==> hdrStatus(rwOf(w).Writer) == (old(rwOf(w).status) == 0 ? 200 : old(rwOf(w).status))
+//@   ensures hastype(w, *responseWriter) ==> rwOf(w).status == (old(rwOf(w).length) == -1 && rwOf(w).length >= 0 && old(rwOf(w).status) == 0 ? 200 : old(rwOf(w).status))
+//@   ensures (err != nil) == renderFailed(hastype(w, *responseWriter) ? refof(rwOf(w).Writer) : refof(w))
+//
+//@ func (*Context).Blob [C19, C08]
+//@   requires respBound(c) && wInv(&c.writer)
+//@   modifies c.writer.status, c.writer.length, hdrCalls(c.writer.Writer), hdrStatus(c.writer.Writer), body(c.writer.Writer), early(c.writer.Writer)
+//@   modifies hdrs(c)["Content-Type"], headerVal(hdrs(c), "Content-Type")
+//@   panics *
+//@   ensures inv: wInv(&c.writer)
+//@   ensures documented_content_type: ctIs(c, contentType)
+//@   ensures status_with_body: status > 0 && old(c.writer.length) == -1 && len(data) > 0 ==> hdrStatus(c.writer.Writer) == status
+//@   ensures status_pending_without_body: status > 0 && old(c.writer.length) == -1 && len(data) == 0 ==> c.writer.status == status && c.writer.length == -1
+//@   ensures committed_status_kept: old(c.writer.length) >= 0 ==> hdrStatus(c.writer.Writer) == old(hdrStatus(c.writer.Writer))
+//@   ensures body_is_data: body(c.writer.Writer) == old(body(c.writer.Writer)) + bytes(data)
+//
+//@ func (*Context).Respond [C19, C08]
+//@   requires respBound(c) && wInv(&c.writer) && renderer != nil
+//@   modifies c.writer.status, c.writer.length, hdrCalls(c.writer.Writer), hdrStatus(c.writer.Writer), c.Errors, allelems([]error)
+//@   modifies allentries(http.Header), headerVal(_, _), body(_), early(_), renderFailed(_), renderedKind(_), encW(_)
+//@   ensures inv: wInv(&c.writer)
+//@   ensures status_given: status > 0 && old(c.writer.length) == -1 ==> (c.writer.length >= 0 ? hdrStatus(c.writer.Writer) == status : c.writer.status == status)
+//@   ensures committed_status_kept: old(c.writer.length) >= 0 ==> hdrStatus(c.writer.Writer) == old(hdrStatus(c.writer.Writer))
+//@   ensures failure_is_recorded: renderFailed(c.writer.Writer) ==> len(c.Errors) == old(len(c.Errors)) + 1
+//@   ensures success_records_nothing: !renderFailed(c.writer.Writer) ==> len(c.Errors) == old(len(c.Errors))
+//
+//@ func (*Context).ShouldRender [C19, C08]
+//@   requires respBound(c) && wInv(&c.writer) && renderer != nil
+//@   modifies c.writer.status, c.writer.length, hdrCalls(c.writer.Writer), hdrStatus(c.writer.Writer)
+//@   modifies allentries(http.Header), headerVal(_, _), body(_), early(_), renderFailed(_), renderedKind(_), encW(_)
+//@   ensures inv: wInv(&c.writer)
+//@   ensures status_given: status > 0 && old(c.writer.length) == -1 ==> (c.writer.length >= 0 ? hdrStatus(c.writer.Writer) == status : c.writer.status == status)
+//@   ensures failure_is_returned: (result != nil) == renderFailed(c.writer.Writer)
+//
+//@ func (*Context).NoContent [C19, C08]
+//@   requires respBound(c) && wInv(&c.writer)
+//@   modifies c.writer.status
+//@   ensures inv: wInv(&c.writer)
+//@   ensures status_204: c.writer.status == 204
+//@ func (*Context).HTTPError [C19, C08]
+//@   requires respBound(c) && wInv(&c.writer)
+//@   modifies c.writer.status, c.writer.length, hdrCalls(c.writer.Writer), hdrStatus(c.writer.Writer), body(c.writer.Writer), early(c.writer.Writer)
+//@   ensures inv: wInv(&c.writer) && c.writer.length >= 0
+//@   ensures status_given: status > 0 && old(c.writer.length) == -1 ==> hdrStatus(c.writer.Writer) == status
+
+//@ func (*Context).Text [C19]
+//@   requires respBound(c) && wInv(&c.writer)
+//@   modifies c.writer.status, c.writer.length, hdrCalls(c.writer.Writer), hdrStatus(c.writer.Writer), body(c.writer.Writer), early(c.writer.Writer)
+//@   modifies hdrs(c)["Content-Type"], headerVal(hdrs(c), "Content-Type")
+//@   panics *
+//@   ensures inv: wInv(&c.writer)
+//@   ensures documented_content_type: ctIs(c, "text/plain; charset=utf-8")
+//@   ensures status_with_body: status > 0 && old(c.writer.length) == -1 && len(str) > 0 ==> hdrStatus(c.writer.Writer) == status
+//@   ensures body_is_text: body(c.writer.Writer) == old(body(c.writer.Writer)) + str
+//@ func (*Context).HTML [C19]
+//@   requires respBound(c) && wInv(&c.writer)
+//@   modifies c.writer.status, c.writer.length, hdrCalls(c.writer.Writer), hdrStatus(c.writer.Writer), body(c.writer.Writer), early(c.writer.Writer)
+//@   modifies hdrs(c)["Content-Type"], headerVal(hdrs(c), "Content-Type")
+//@   panics *
+//@   ensures inv: wInv(&c.writer)
+//@   ensures documented_content_type: ctIs(c, "text/html; charset=utf-8")
+//@   ensures body_is_data: body(c.writer.Writer) == old(body(c.writer.Writer)) + bytes(data)
+//@ func (*Context).JSONBytes [C19]
+//@   requires respBound(c) && wInv(&c.writer)
+//@   modifies c.writer.status, c.writer.length, hdrCalls(c.writer.Writer), hdrStatus(c.writer.Writer), body(c.writer.Writer), early(c.writer.Writer)
+//@   modifies hdrs(c)["Content-Type"], headerVal(hdrs(c), "Content-Type")
+//@   panics *
+//@   ensures inv: wInv(&c.writer)
+//@   ensures documented_content_type: ctIs(c, "application/json; charset=utf-8")
+//@   ensures body_is_data: body(c.writer.Writer) == old(body(c.writer.Writer)) + bytes(bs)
+//@ func (*Context).JSON [C19]
+//@   requires respBound(c) && wInv(&c.writer)
+//@   modifies c.writer.status, c.writer.length, hdrCalls(c.writer.Writer), hdrStatus(c.writer.Writer), c.Errors, allelems([]error)
+//@   modifies allentries(http.Header), headerVal(_, _), body(_), early(_), renderFailed(_), renderedKind(_), encW(_)
+//@   ensures inv: wInv(&c.writer)
+//@   ensures status_given: status > 0 && old(c.writer.length) == -1 ==> (c.writer.length >= 0 ? hdrStatus(c.writer.Writer) == status : c.writer.status == status)
+//@   ensures failure_is_recorded: renderFailed(c.writer.Writer) ==> len(c.Errors) == old(len(c.Errors)) + 1
